@@ -96,7 +96,54 @@ def add_enum_repr(src):
     return "".join(out), n
 
 
-def stage(dest, crate, bytes_model="len", cap=2, qcap=2, max_clients=None, replay_window=None, harness_dir=None, models=True, slice_size=None):
+NETCODE_SHRINKABLE = {"NETCODE_USER_DATA_BYTES", "NETCODE_CONNECT_TOKEN_PRIVATE_BYTES", "NETCODE_CHALLENGE_TOKEN_BYTES",
+                      "NETCODE_MAX_PACKET_BYTES", "NETCODE_MAX_PAYLOAD_BYTES"}
+
+
+def shrink_netcode_consts(s, rel, consts):
+    """model-tiny: rewrite the LITERALS of size constants in renetcode/src/lib.rs (the code is parametric in them; the
+    relations between them are re-checked by tools/smt_consts.py and by the lemmas that run at the real sizes).  The two
+    places that spell the user-data size as a literal 256 are re-pointed at the constant.  Fails closed."""
+    if rel == "lib.rs":
+        for name, val in consts.items():
+            if name not in NETCODE_SHRINKABLE:
+                raise StageError("constant %s is not shrinkable" % name)
+            s, n = re.subn(r"(?m)^(\s*(?:pub )?const %s: usize = )\d+;" % name, r"\g<1>%d;" % val, s)
+            if n != 1:
+                raise StageError("cannot rewrite %s" % name)
+    if "NETCODE_USER_DATA_BYTES" in consts:
+        if rel == "packet.rs":
+            s, n = re.subn(r"pub user_data: \[u8; 256\]", "pub user_data: [u8; NETCODE_USER_DATA_BYTES]", s)
+            if n > 1:
+                raise StageError("unexpected user_data literals in packet.rs")
+        if rel == "token.rs":
+            s, n = re.subn(r"let mut user_data = \[0u8; 256\];", "let mut user_data = [0u8; NETCODE_USER_DATA_BYTES];", s)
+            if n > 1:
+                raise StageError("unexpected user_data literals in token.rs")
+    return s
+
+
+CONTRACT_CALLS = [
+    (r"\bPacket::decode\(", "Packet::verif_decode("),
+    (r"\bpacket\.encode\(", "packet.verif_encode("),
+    (r"\bPacket::generate_challenge\(", "Packet::verif_generate_challenge("),
+    (r"\bChallengeToken::decode\(", "ChallengeToken::verif_decode("),
+    (r"\bPrivateConnectToken::decode\(", "PrivateConnectToken::verif_decode("),
+]
+
+
+def use_contracts(s):
+    """variant "contracts": the calls renetcode/src/server.rs makes into packet.rs / token.rs are re-pointed at contract
+    functions (harness/renetcode/{packet,token}.rs) whose guarantees are what the packet / token lemmas prove about the
+    real callees.  Fails closed when a call family is not found at all."""
+    for pat, rep in CONTRACT_CALLS:
+        s, n = re.subn(pat, rep, s)
+        if n < 1:
+            raise StageError("contract variant: no call matching %s in server.rs" % pat)
+    return s
+
+
+def stage(dest, crate, bytes_model="len", cap=2, qcap=2, max_clients=None, replay_window=None, harness_dir=None, models=True, slice_size=None, consts=None, contracts=False):
     """crate: 'renet' | 'renetcode'.  Returns dict with info for the evidence file."""
     harness_dir = harness_dir or os.path.join(VERIF, "harness")
     src_crate = os.path.join(REPO, crate)
@@ -159,10 +206,14 @@ def stage(dest, crate, bytes_model="len", cap=2, qcap=2, max_clients=None, repla
                 s, n = re.subn(r"const NETCODE_MAX_CLIENTS: usize = \d+;", "const NETCODE_MAX_CLIENTS: usize = %d;" % max_clients, s)
                 if n != 1:
                     raise StageError("cannot shrink NETCODE_MAX_CLIENTS")
-            if replay_window is not None:
-                s, n = re.subn(r"const NETCODE_REPLAY_BUFFER_SIZE: usize = \d+;", "const NETCODE_REPLAY_BUFFER_SIZE: usize = %d;" % replay_window, s)
-                if n != 1:
-                    raise StageError("cannot shrink NETCODE_REPLAY_BUFFER_SIZE")
+        if crate == "renetcode" and rel == "replay_protection.rs" and replay_window is not None:
+            s, n = re.subn(r"const NETCODE_REPLAY_BUFFER_SIZE: usize = \d+;", "const NETCODE_REPLAY_BUFFER_SIZE: usize = %d;" % replay_window, s)
+            if n != 1:
+                raise StageError("cannot shrink NETCODE_REPLAY_BUFFER_SIZE")
+        if crate == "renetcode" and consts:
+            s = shrink_netcode_consts(s, rel, dict(consts))
+        if crate == "renetcode" and contracts and rel == "server.rs":
+            s = use_contracts(s)
         if crate == "renet" and rel == "packet.rs" and slice_size is not None:
             s, n = re.subn(r"pub const SLICE_SIZE: usize = \d+;", "pub const SLICE_SIZE: usize = %d;" % slice_size, s)
             if n != 1:
@@ -190,6 +241,7 @@ def stage(dest, crate, bytes_model="len", cap=2, qcap=2, max_clients=None, repla
             parts.append(_read(os.path.join(VERIF, "models", "bytes_%s.rs" % bytes_model)))
         else:
             parts.append(_read(os.path.join(VERIF, "models", "chacha.rs")))
+            parts.append(_read(os.path.join(VERIF, "models", "netcode_contracts.rs")))
     else:
         parts.append(_read(os.path.join(VERIF, "models", "real_%s.rs" % crate)))
     support = os.path.join(VERIF, "models", "support_%s.rs" % crate)
@@ -197,7 +249,8 @@ def stage(dest, crate, bytes_model="len", cap=2, qcap=2, max_clients=None, repla
         parts.append(_read(support))
     _write(os.path.join(srcroot, "verif_models.rs"), "\n".join(parts))
     info.update({"bytes_model": bytes_model if crate == "renet" else None, "cap": cap, "qcap": qcap,
-                 "max_clients": max_clients, "replay_window": replay_window, "models": models, "slice_size": slice_size})
+                 "max_clients": max_clients, "replay_window": replay_window, "models": models, "slice_size": slice_size,
+                 "consts": dict(consts) if consts else None, "contracts": bool(contracts)})
     return info
 
 
@@ -212,9 +265,11 @@ if __name__ == "__main__":
     ap.add_argument("--qcap", type=int, default=2)
     ap.add_argument("--max-clients", type=int, default=None)
     ap.add_argument("--replay-window", type=int, default=None)
+    ap.add_argument("--contracts", action="store_true")
+    ap.add_argument("--const", action="append", default=[], help="NAME=VALUE (renetcode size constants)")
     a = ap.parse_args()
     try:
-        print(json.dumps(stage(a.dest, a.crate, a.bytes, a.cap, a.qcap, a.max_clients, a.replay_window), indent=1))
+        print(json.dumps(stage(a.dest, a.crate, a.bytes, a.cap, a.qcap, a.max_clients, a.replay_window, consts={c.split('=')[0]: int(c.split('=')[1]) for c in a.const} or None, contracts=a.contracts), indent=1))
     except StageError as e:
         print("STAGE-ERROR:", e)
         sys.exit(2)
